@@ -17,10 +17,22 @@ from .syncworld import HarnessHang, SpinGuard, World
 
 
 class TLSPipe:
-    def __init__(self, world: World, peer: tlspeer.TLSPeer, frag_to_sut: list[int]) -> None:
+    def __init__(self, world: World, peer: tlspeer.TLSPeer, frag_to_sut: list[int], *, tcp: bool = False) -> None:
         self.world = world
         self.peer = peer
-        self.sut_sock, self.harness_sock = socket.socketpair()
+        self.tcp = tcp
+        if tcp:
+            # the high-level clients only accept AF_INET/AF_INET6 sockets: a connected loopback pair
+            with socket.socket(socket.AF_INET, socket.SOCK_STREAM) as lst:
+                lst.bind(("127.0.0.1", 0))
+                lst.listen(1)
+                self.sut_sock = socket.socket(socket.AF_INET, socket.SOCK_STREAM)
+                self.sut_sock.connect(lst.getsockname())
+                self.harness_sock, _ = lst.accept()
+            for s in (self.sut_sock, self.harness_sock):
+                s.setsockopt(socket.IPPROTO_TCP, socket.TCP_NODELAY, 1)
+        else:
+            self.sut_sock, self.harness_sock = socket.socketpair()
         self.harness_sock.setblocking(False)
         self.to_sut = bytearray()
         self.all_to_sut = bytearray()
@@ -145,6 +157,16 @@ class TLSSelector(selectors.BaseSelector):
                 out.append((key, ev))
         return out
 
+    def _settle(self) -> bool:
+        """loopback TCP delivers within the sending syscall in practice, but that is not a guarantee: before declaring
+        quiescence give the kernel a moment (real time, harness side only) to surface in-flight bytes"""
+        fds = [fd for fd, k in self._keys.items() if k.events & selectors.EVENT_READ]
+        try:
+            rr, _, _ = _select.select(fds + ([] if self.pipe.sut_eof else [self.pipe.harness_sock]), [], [], 0.02)
+        except (OSError, ValueError):
+            return False
+        return bool(rr)
+
     def select(self, timeout: float | None = None) -> list[tuple[selectors.SelectorKey, int]]:
         w = self.pipe.world
         w.select_calls += 1
@@ -158,6 +180,8 @@ class TLSSelector(selectors.BaseSelector):
             if ready:
                 return ready
             if not moved:
+                if self.pipe.tcp and self._settle():
+                    continue
                 if timeout is None:
                     raise HarnessHang("TLS transport waits although neither side has anything in flight")
                 w.now += max(0.0, timeout)
